@@ -362,6 +362,8 @@ def plan(pid, tier, seed):
         for cu in UNITPAIR_CULTURES:
             jobs.append({'name': 'unitpairs-%s' % cu, 'kind': 'unitpairs', 'culture': cu, 'weight': 2})
         jobs.append({'name': 'suffixpairs', 'kind': 'suffixpairs', 'weight': 2})
+        for cu in UNITPAIR_CULTURES:
+            jobs.append({'name': 'unitorder-%s' % cu, 'kind': 'unitorder', 'culture': cu, 'weight': 2})
         for cu in CULTURES:
             sh = 1 if tier == 'quick' else 3
             for s in range(sh):
@@ -370,6 +372,8 @@ def plan(pid, tier, seed):
             for s in range(sh):
                 jobs.append({'name': 'wsent-%s-%d' % (cu, s), 'kind': 'wsentity', 'culture': cu, 'shard': s, 'shards': sh, 'weight': 2})
     gens = GEN_QUICK if tier == 'quick' else GEN_ALL
+    if pid == 'C12' and tier == 'quick':
+        gens = gens + ['c05']          # the unit-table walk: multi-token spellings of which the number takes only a part
     if pid == 'C11':
         gens = [g for g in gens if g in ('c06', 'c07', 'c08', 'c09', 'c10')] if tier == 'thorough' else ['c06', 'c07']
         jobs.append({'name': 'invalid-dates', 'kind': 'invalid', 'weight': 2})
@@ -643,6 +647,28 @@ def run(pid, job, ctx):
                             lib.call(m, mt, q, dt.datetime(2016, 11, 7, 10, 30))
                         except Exception:
                             pass
+    elif kind == 'unitorder':
+        # every listed unit spelling with the number on the OTHER side as well ('british £ 5' for the suffix spelling 'british £', whose
+        # last token is itself a prefix unit), and between two copies of the spelling ('km/min 5 km/min'): whatever is recognised, no overlap
+        from rtmon.checkers import c05
+        cu = job['culture']
+        r = ctx.rng('unitorder:' + cu)
+        for mt in ('CurrencyModel', 'DimensionModel', 'AgeModel', 'TemperatureModel'):
+            try:
+                m = lib.model('NumberWithUnitRecognizer', mt, cu)
+            except Exception:
+                continue
+            cfg, pcfg = c05.tables(m)
+            forms = sorted({f for table in (cfg.suffix_list, cfg.prefix_list) for u, f in c05.forms_of(table) if f.strip()})
+            multi = [f for f in forms if ' ' in f or '/' in f or not f.isalnum()]
+            pick = multi if ctx.tier == 'thorough' else r.sample(multi, min(260, len(multi)))
+            for f in pick:
+                n = r.choice(['5', '12', '20', '3'])
+                for q in ('%s %s' % (f, n), '%s %s' % (n, f), '%s %s %s' % (f, n, f), '%s%s' % (f, n)):
+                    try:
+                        lib.call(m, mt, q, None)
+                    except Exception:
+                        pass
     elif kind == 'suffixpairs':
         # the SAME trailing (or leading) modifier phrase on two or three entities of one sentence: '<a> or later, and <b> or later'
         r = ctx.rng('suffixpairs')
